@@ -669,14 +669,28 @@ func c16CompareState(t *rapid.T, w *engcWorld, name string, l *Ledger, q basics.
 		lookups++
 	}
 	ids, types := w.Model.EverCreatables()
+	// creator index: every id from just below the first to just above the last creatable that ever existed (live,
+	// deleted and never-existing ids), asked as an asset AND as an application
+	if len(ids) > 0 {
+		for id := ids[0] - 2; id <= ids[len(ids)-1]+3; id++ {
+			for _, ct := range []basics.CreatableType{basics.AssetCreatable, basics.AppCreatable} {
+				gc, ok, err := l.GetCreatorForRound(q, id, ct)
+				wc, wok := want.Creator(id, ct)
+				if err != nil || ok != wok || gc != wc {
+					fail("%s: GetCreatorForRound(%d, %d, type %d) = %v exists=%v err=%v; model %v exists=%v (id ever was a creatable: %v)", name, q, id, ct, gc, ok, err, wc, wok, func() bool { _, ever := types[id]; return ever }())
+				}
+				if q == l.Latest() {
+					gc, ok, err := l.GetCreator(id, ct)
+					if err != nil || ok != wok || gc != wc {
+						fail("%s: GetCreator(%d, type %d) = %v exists=%v err=%v; model %v exists=%v", name, id, ct, gc, ok, err, wc, wok)
+					}
+				}
+				lookups++
+			}
+		}
+	}
 	for _, id := range ids {
 		ct := types[id]
-		gc, ok, err := l.GetCreatorForRound(q, id, ct)
-		wc, wok := want.Creator(id, ct)
-		if err != nil || ok != wok || gc != wc {
-			fail("%s: GetCreatorForRound(%d, %d) = %v %v %v; model %v %v", name, q, id, gc, ok, err, wc, wok)
-		}
-		lookups++
 		for _, addr := range w.Addrs() {
 			a := want.Acct(addr)
 			if ct == basics.AssetCreatable {
